@@ -40,7 +40,7 @@ REPLAY_F11B = r'''
 /* the real call under a 10 s alarm: with saturated limits {1,1} no level ever adds a point */
 #include <unistd.h>
 #include <signal.h>
-static void on_alarm(int){ const char m[] = "REPLAY-FAIL: F11b setAnisotropicRefinement did not return within 10 s (the grow loop has no exit when the level limits are saturated)\\n"; write(1, m, sizeof(m) - 1); _exit(1); }
+static void on_alarm(int){ const char m[] = "REPLAY-FAIL: F11b setAnisotropicRefinement did not return within 10 s (the grow loop has no exit when the level limits are saturated)\n"; write(1, m, sizeof(m) - 1); _exit(1); }
 int main_replay(){
   using namespace TasGrid;
   signal(SIGALRM, on_alarm); alarm(10);
@@ -52,10 +52,10 @@ int main_replay(){
   std::vector<double> pts = grid.getNeededPoints(), v(grid.getNumNeeded());
   for (size_t i = 0; i < v.size(); i++) v[i] = std::exp(pts[2*i] + 0.5 * pts[2*i+1]);
   grid.loadNeededValues(v);
-  std::printf("%s with level limits {1,1}: %d points loaded (the full tensor of the limits); calling setAnisotropicRefinement(type_iptotal, 1, 0)\\n", cls.c_str(), grid.getNumLoaded());
+  std::printf("%s with level limits {1,1}: %d points loaded (the full tensor of the limits); calling setAnisotropicRefinement(type_iptotal, 1, 0)\n", cls.c_str(), grid.getNumLoaded());
   std::fflush(stdout);
   grid.setAnisotropicRefinement(type_iptotal, 1, 0);
-  std::printf("returned with %d needed points\\n", grid.getNumNeeded());
+  std::printf("returned with %d needed points\n", grid.getNumNeeded());
   return 0;
 }
 '''
